@@ -3288,9 +3288,15 @@ class StateEngine(object):
                 return
 
             """
-            Publish any new state change before acknowledging the events.
+            Publish any new state change, or end the execution, before
+            acknowledging the events: if the engine dies in between the held
+            events are redelivered rather than lost. Ending the execution
+            deletes the Parallel or Map branch results for the current
+            execution, but event_ids still refers to the list of held ids.
             """
-            if not state.get("End"):
+            if state.get("End"):
+                handle_terminal_state(state_type, event)
+            else:
                 error_type, error_message = self.change_state(
                     state_machine, state_type, state.get("Next"), event
                 )
@@ -3301,13 +3307,6 @@ class StateEngine(object):
             #print("Result - event_ids:")
             #print(event_ids)
             self.acknowledge_event_list(event_ids)
-
-            """
-            Need to do this *after* acknowledging the events as it deletes the
-            Parallel or Map branch results for the current execution.
-            """
-            if state.get("End"):
-                handle_terminal_state(state_type, event)
 
 
         """
